@@ -4988,6 +4988,9 @@ class PyCdlib:
                                      self.logical_block_size, True, False,
                                      self.xa, file_mode, time.time())
                 num_bytes_to_add += self._add_child_to_dr(fake_dir_rec)
+                if fake_dir_rec.rock_ridge is not None:
+                    # A long name spills into a continuation area here too.
+                    num_bytes_to_add += self._update_rr_ce_entry(fake_dir_rec)
 
                 # The fake dir record doesn't get an entry in the path table
                 # record.
